@@ -1,10 +1,11 @@
 package syncer
 
 import (
-	"github.com/mgtv-tech/redis-GunYu/config"
 	"bytes"
 	"encoding/json"
 	"fmt"
+	"github.com/mgtv-tech/redis-GunYu/config"
+	"math"
 	"net"
 	"os"
 	"sort"
@@ -13,6 +14,7 @@ import (
 	"testing/synctest"
 	"time"
 
+	"github.com/mgtv-tech/redis-GunYu/pkg/rdb"
 	"github.com/mgtv-tech/redis-GunYu/verifshim/mc"
 	"github.com/mgtv-tech/redis-GunYu/verifshim/redisd"
 	"github.com/mgtv-tech/redis-GunYu/verifshim/ref"
@@ -52,10 +54,33 @@ type c13Scenario struct {
 //	       RESTORE answers BUSYKEY, the marker is the unit's only effective command; the
 //	       start sequence stops with that error and is run once more, see c13RaceAbortIsViolation)
 //	a2racemid as a2race with the raced key in the middle of the snapshot
+//	big    site A holds one string and one collection (Big = hash | list | set | zset) of BigN
+//	       elements under snap:big; replayed in expanded form (Restore=false) the key is ONE
+//	       record_type=rdb unit of BigN commands (+ a leading DEL under replace)
+//	split  site A holds one string and a table-encoded hash of 6 fields; Chunk lowers the
+//	       parser's bin size (shipped: 16 MiB) so that the hash reaches the link as several bins
+//	       = several units of one key
+//
+// BulkLen, when > 0, is MaxProtoBulkLen itself (values whose dump is larger are expanded, smaller
+// ones go through RESTORE: both forms in one snapshot).
 type c13Snap struct {
 	Content   string `json:"content"`
 	KeyExists string `json:"key_exists"` // replace | ignore
 	Restore   bool   `json:"restore"`    // MaxProtoBulkLen = shipped default (RESTORE path) / 0 (expanded commands)
+	Big       string `json:"big,omitempty"`
+	BigN      int    `json:"big_n,omitempty"`
+	Chunk     int    `json:"chunk,omitempty"`
+	BulkLen   int    `json:"bulklen,omitempty"`
+}
+
+func (sn c13Snap) maxBulk() int {
+	if sn.BulkLen > 0 {
+		return sn.BulkLen
+	}
+	if sn.Restore {
+		return 512 * 1024 * 1024 // config.go default (proto-max-bulk-len of Redis)
+	}
+	return 0
 }
 
 // c13RaceAbortIsViolation: how the check judges the one way the tool reacts to the a2race
@@ -71,6 +96,7 @@ const (
 	c13KeyS   = "snap:s"
 	c13KeyDup = "snap:dup"
 	c13KeyH   = "snap:h"
+	c13KeyBig = "snap:big"
 	c13RaceV  = "B-race"
 )
 
@@ -84,8 +110,52 @@ func c13Str(k, v string) c13SnapKey {
 	return c13SnapKey{Key: k, Val: &ref.RValue{Type: 's', Str: []byte(v)}, Enc: ref.RDBEnc{Kind: "raw"}}
 }
 
+// c13BigKey builds a collection of n elements that the parser expands to one command per element.
+func c13BigKey(kind string, n int) c13SnapKey {
+	k := c13SnapKey{Key: c13KeyBig}
+	switch kind {
+	case "hash":
+		v := &ref.RValue{Type: 'h'}
+		for i := 0; i < n; i++ {
+			v.Hash = append(v.Hash, ref.HField{Field: []byte(fmt.Sprintf("f%04d", i)), Value: []byte(fmt.Sprintf("v%04d", i))})
+		}
+		k.Val, k.Enc = v, ref.RDBEnc{Kind: "table"}
+	case "list":
+		v := &ref.RValue{Type: 'l'}
+		for i := 0; i < n; i++ {
+			v.List = append(v.List, []byte(fmt.Sprintf("e%04d", i)))
+		}
+		k.Val, k.Enc = v, ref.RDBEnc{Kind: "quicklist2", Node: 128}
+	case "set":
+		v := &ref.RValue{Type: 'S'}
+		for i := 0; i < n; i++ {
+			v.Set = append(v.Set, []byte(fmt.Sprintf("m%04d", i)))
+		}
+		k.Val, k.Enc = v, ref.RDBEnc{Kind: "table"}
+	case "zset":
+		v := &ref.RValue{Type: 'z'}
+		for i := 0; i < n; i++ {
+			v.ZSet = append(v.ZSet, ref.ZMember{Member: []byte(fmt.Sprintf("z%04d", i)), Score: float64(i) + 0.5})
+		}
+		k.Val, k.Enc = v, ref.RDBEnc{Kind: "skiplist2"}
+	default:
+		panic("c13BigKey: unknown kind " + kind)
+	}
+	return k
+}
+
 // c13SnapKeys returns what site A and site B hold at snapshot time.
 func c13SnapKeys(sn *c13Snap) (a, b []c13SnapKey) {
+	switch sn.Content {
+	case "big":
+		return []c13SnapKey{c13Str(c13KeyS, "A-s"), c13BigKey(sn.Big, sn.BigN)}, nil
+	case "split":
+		v := &ref.RValue{Type: 'h'}
+		for i := 0; i < 6; i++ {
+			v.Hash = append(v.Hash, ref.HField{Field: []byte(fmt.Sprintf("field-%02d", i)), Value: []byte(fmt.Sprintf("value-%02d-0123456789abcdef", i))})
+		}
+		return []c13SnapKey{c13Str(c13KeyS, "A-s"), {Key: c13KeyH, Val: v, Enc: ref.RDBEnc{Kind: "table"}}}, nil
+	}
 	a = []c13SnapKey{
 		c13Str(c13KeyS, "A-s"),
 		{Key: c13KeyH, Val: &ref.RValue{Type: 'h', Hash: []ref.HField{{Field: []byte("f1"), Value: []byte("A-1")}, {Field: []byte("f2"), Value: []byte("A-2")}}}, Enc: ref.RDBEnc{Kind: "listpack"}},
@@ -112,6 +182,20 @@ func c13ToValue(v *ref.RValue) *redisd.Value {
 			out.Hash[string(f.Field)] = append([]byte{}, f.Value...)
 			out.HOrder = append(out.HOrder, string(f.Field))
 		}
+	case 'l':
+		for _, e := range v.List {
+			out.List = append(out.List, append([]byte{}, e...))
+		}
+	case 'S':
+		out.Set = map[string]struct{}{}
+		for _, e := range v.Set {
+			out.Set[string(e)] = struct{}{}
+		}
+	case 'z':
+		out.ZSet = map[string]float64{}
+		for _, m := range v.ZSet {
+			out.ZSet[string(m.Member)] = m.Score
+		}
 	default:
 		panic("c13ToValue: unsupported type")
 	}
@@ -133,6 +217,26 @@ func c13Canon(v *redisd.Value) string {
 		}
 		sort.Strings(fs)
 		return "hash " + strings.Join(fs, " ")
+	case 'l':
+		var fs []string
+		for _, e := range v.List {
+			fs = append(fs, fmt.Sprintf("%q", e))
+		}
+		return "list " + strings.Join(fs, " ")
+	case 'S':
+		var fs []string
+		for k := range v.Set {
+			fs = append(fs, fmt.Sprintf("%q", k))
+		}
+		sort.Strings(fs)
+		return "set " + strings.Join(fs, " ")
+	case 'z':
+		var fs []string
+		for k, x := range v.ZSet {
+			fs = append(fs, fmt.Sprintf("%q=%x", k, math.Float64bits(x)))
+		}
+		sort.Strings(fs)
+		return "zset " + strings.Join(fs, " ")
 	}
 	return "type " + redisd.TypeName(v.T)
 }
@@ -176,6 +280,14 @@ func c13Commands(sym string, i int) [][]string {
 		return [][]string{{"MULTI"}, {"SET", "user:marker:{x}" + p, markerLike}, {"SET", "tf" + p, "1"}, {"EXEC"}}
 	case "expire":
 		return [][]string{{"SET", "k" + p, "v" + p}, {"EXPIRE", "k" + p, "100"}}
+	case "burst":
+		// more plain writes than bisyncFrontierFlushUnitThreshold (512) between two link steps:
+		// the frontier is flushed by count in the middle of one chunk, not by the 100 ms interval
+		var out [][]string
+		for j := 0; j < 520; j++ {
+			out = append(out, []string{"SET", fmt.Sprintf("kb%s.%03d", p, j), "v"})
+		}
+		return out
 	case "otherdb":
 		// a client write in another database: the next thing this site propagates from db 0
 		// (e.g. a transaction a link wrote) is preceded - Redis >= 7: followed inside the
@@ -319,6 +431,7 @@ func c13ExecPlan(t *testing.T, scn c13Scenario, ch *mc.Chooser) (res mc.Result, 
 			s := &biSite{name: name, addr: addr, runID: runID, srv: redisd.New(addr), clientReqs: map[int]bool{}}
 			s.srv.ReplID = runID
 			s.srv.EnableRepl(scn.WrapSingle)
+			s.srv.PropagateExpire = true
 			c, err := vnet.DialDirect(addr)
 			if err != nil {
 				panic(err)
@@ -338,6 +451,10 @@ func c13ExecPlan(t *testing.T, scn c13Scenario, ch *mc.Chooser) (res mc.Result, 
 		raced := false
 		raceAborts := 0
 		bootOrder := []int{0, 1}
+		if scn.Snap != nil && scn.Snap.Chunk > 0 {
+			oldMax := rdb.VerifSetMaxBinEntryBuffer(scn.Snap.Chunk)
+			defer rdb.VerifSetMaxBinEntryBuffer(oldMax)
+		}
 		if scn.Snap != nil {
 			ka, kb := c13SnapKeys(scn.Snap)
 			links[0].snapKeys, links[1].snapKeys = ka, kb
@@ -394,9 +511,7 @@ func c13ExecPlan(t *testing.T, scn c13Scenario, ch *mc.Chooser) (res mc.Result, 
 				biBootRDB = l.rdb
 				biBootCfgHook = func(c *RedisOutputConfig) {
 					c.KeyExists = sn.KeyExists
-					if sn.Restore {
-						c.MaxProtoBulkLen = 512 * 1024 * 1024 // config.go default (proto-max-bulk-len of Redis)
-					}
+					c.MaxProtoBulkLen = sn.maxBulk()
 				}
 				l.snapLo = l.to.srv.NumReqs()
 				if strings.HasPrefix(sn.Content, "a2race") && li == 0 {
@@ -464,6 +579,15 @@ func c13ExecPlan(t *testing.T, scn c13Scenario, ch *mc.Chooser) (res mc.Result, 
 				links[a-1].step()
 				events++
 			}
+			if w.Sym == "idle25h" {
+				// nothing happens for longer than the 24 h the bookkeeping markers live
+				time.Sleep(25 * time.Hour)
+				for _, l := range links {
+					l.run.wait()
+				}
+				events++
+				continue
+			}
 			for _, c := range c13Commands(w.Sym, i) {
 				sites[w.Site].client(c...)
 			}
@@ -507,7 +631,7 @@ func c13ExecPlan(t *testing.T, scn c13Scenario, ch *mc.Chooser) (res mc.Result, 
 				strings.Join(maskedLog(logs["A"]), "\n"), strings.Join(maskedLog(logs["B"]), "\n"))
 		}
 		describe := func() map[string]interface{} {
-			return map[string]interface{}{"siteA_log": maskedLog(logs["A"]), "siteB_log": maskedLog(logs["B"])}
+			return map[string]interface{}{"siteA_log": c13Clip(maskedLog(logs["A"])), "siteB_log": c13Clip(maskedLog(logs["B"]))}
 		}
 		for _, s := range sites {
 			if len(s.srv.MachineryErrors) > 0 {
@@ -574,20 +698,20 @@ func c13ExecPlan(t *testing.T, scn c13Scenario, ch *mc.Chooser) (res mc.Result, 
 						}
 					}
 					res = mc.Violation("what a link applied differs from the peer's client writes: "+kind, fmt.Sprintf("C13:%s:%s", kind, scn.Cfg.Mode),
-						map[string]interface{}{"link": dir, "at": i, "expected": replStrings(want), "applied": maskedLog(got), "history": describe()})
+						map[string]interface{}{"link": dir, "at": i, "expected": c13Clip(replStrings(want)), "applied": c13Clip(maskedLog(got)), "history": describe()})
 					return
 				}
 			}
 			if len(got) > len(want) {
 				kind := "echo-or-invented"
 				res = mc.Violation("a link applied more than the peer's client writes (echo of own writes or bookkeeping sent as business)", fmt.Sprintf("C13:%s:%s", kind, scn.Cfg.Mode),
-					map[string]interface{}{"link": dir, "expected": replStrings(want), "applied": maskedLog(got), "history": describe()})
+					map[string]interface{}{"link": dir, "expected": c13Clip(replStrings(want)), "applied": c13Clip(maskedLog(got)), "history": describe()})
 				return
 			}
 			if len(got) < len(want) {
 				sym := "?"
 				res = mc.Violation("a client write of one site is missing at the other (swallowed)", fmt.Sprintf("C13:swallowed:%s:%s", scn.Cfg.Mode, c13SymOf(scn, want[len(got)], &sym)),
-					map[string]interface{}{"link": dir, "missing": replStrings(want[len(got):]), "expected": replStrings(want), "applied": maskedLog(got), "history": describe()})
+					map[string]interface{}{"link": dir, "missing": c13Clip(replStrings(want[len(got):])), "expected": c13Clip(replStrings(want)), "applied": c13Clip(maskedLog(got)), "history": describe()})
 				return
 			}
 			// a client transaction must arrive as one transaction
@@ -606,7 +730,7 @@ func c13ExecPlan(t *testing.T, scn c13Scenario, ch *mc.Chooser) (res mc.Result, 
 				for _, r := range logs[map[int]string{0: "B", 1: "A"}[li]] {
 					if r.Seq > l.snapLo && r.Seq <= l.snapHi && !l.to.clientReqs[r.Seq] && len(r.Argv) > 1 && strings.HasPrefix(string(r.Argv[1]), "snap:") {
 						switch r.Name() {
-						case "restore", "set", "hset", "hmset", "del", "rpush":
+						case "restore", "set", "hset", "hmset", "del", "rpush", "sadd", "zadd":
 							snapApplied = true
 						}
 					}
@@ -655,6 +779,17 @@ func c13ExecPlan(t *testing.T, scn c13Scenario, ch *mc.Chooser) (res mc.Result, 
 		return mc.Result{Verdict: "machinery", Clause: "bubble: " + msg}, seen, hit
 	}
 	return res, seen, hit
+}
+
+// c13Clip keeps the head and the tail of a long listing (big snapshot values make logs of
+// thousands of lines).
+func c13Clip(ss []string) []string {
+	if len(ss) <= 240 {
+		return ss
+	}
+	out := append([]string(nil), ss[:80]...)
+	out = append(out, fmt.Sprintf("... %d lines omitted ...", len(ss)-200))
+	return append(out, ss[len(ss)-120:]...)
 }
 
 // c13RaceAbortCount counts executions in which the raced start sequence stopped with BUSYKEY
@@ -761,7 +896,14 @@ func runC13(t *testing.T, rep *mc.Reporter) {
 		}
 		rec(nil)
 	}
+	// development aid: VERIF_C13_ONLY=incr|snap|idle|size|wl|preempt restricts the enumeration to
+	// one family (never set by bin/check; the scenario numbering and sharding differ then)
+	only := os.Getenv("VERIF_C13_ONLY")
+	fam := func(name string) bool { return only == "" || only == name }
 	idx := 0
+	if !fam("incr") {
+		writes = nil
+	}
 	for _, ws := range writes {
 		for _, m := range modes {
 			for _, wrap := range []bool{false, true} {
@@ -778,14 +920,14 @@ func runC13(t *testing.T, rep *mc.Reporter) {
 	// snapshot of its source through the real SendRdb (one marker transaction per key) while
 	// the opposite link's start position lies before those writes.
 	snaps := []c13Snap{
-		{"a2", "replace", true}, {"a2", "replace", false},
-		{"a2b1", "ignore", true},
-		{"a2race", "ignore", true},
+		{Content: "a2", KeyExists: "replace", Restore: true}, {Content: "a2", KeyExists: "replace", Restore: false},
+		{Content: "a2b1", KeyExists: "ignore", Restore: true},
+		{Content: "a2race", KeyExists: "ignore", Restore: true},
 	}
 	firsts := []string{"txn", "txn1", "txnmarkerfirst", "set"} // first write at the site that received A's snapshot
 	seconds := []string{"set", "txn"}
 	if tier == "thorough" {
-		snaps = append(snaps, c13Snap{"a2", "ignore", true}, c13Snap{"a2b1", "replace", true}, c13Snap{"a2b1", "replace", false}, c13Snap{"a2b1", "ignore", false}, c13Snap{"a2racemid", "ignore", true})
+		snaps = append(snaps, c13Snap{Content: "a2", KeyExists: "ignore", Restore: true}, c13Snap{Content: "a2b1", KeyExists: "replace", Restore: true}, c13Snap{Content: "a2b1", KeyExists: "replace", Restore: false}, c13Snap{Content: "a2b1", KeyExists: "ignore", Restore: false}, c13Snap{Content: "a2racemid", KeyExists: "ignore", Restore: true})
 		seconds = reduced
 	}
 	var swrites [][]c13Write
@@ -806,6 +948,9 @@ func runC13(t *testing.T, rep *mc.Reporter) {
 			swrites = append(swrites, []c13Write{{0, p0}, {1, f}})
 		}
 	}
+	if !fam("snap") {
+		swrites = nil
+	}
 	for _, ws := range swrites {
 		for si := range snaps {
 			for _, m := range modes {
@@ -821,8 +966,128 @@ func runC13(t *testing.T, rep *mc.Reporter) {
 			}
 		}
 	}
+	// ---- a day without traffic between two writes: the markers of the earlier units have expired
+	// when the next unit arrives (a master deletes an expired key a command touches and propagates a
+	// DEL in front of that command's effects)
+	iwrites := [][]c13Write{{{0, "set"}, {0, "idle25h"}, {0, "set"}}, {{0, "txn"}, {0, "idle25h"}, {0, "txn"}}, {{0, "set"}, {1, "set"}, {0, "idle25h"}, {1, "txn1"}}}
+	if !fam("idle") {
+		iwrites = nil
+	}
+	for _, ws := range iwrites {
+		for _, m := range modes {
+			for _, wrap := range []bool{false, true} {
+				idx++
+				if idx%nshards != shard || budget.Expired() {
+					continue
+				}
+				scn := c13Scenario{Writes: ws, Cfg: m, WrapSingle: wrap}
+				mc.RunScenario(rep, scn, bound, budget, func(ch *mc.Chooser) mc.Result { return c13Exec(t, scn, ch) })
+			}
+		}
+	}
+	// the same after a snapshot phase: the markers of the record_type=rdb units have expired when
+	// the first incremental unit of that link arrives at the target
+	isnaps := []c13Snap{{Content: "a2", KeyExists: "replace", Restore: true}}
+	iswrites := [][]c13Write{{{0, "idle25h"}, {0, "set"}}, {{0, "idle25h"}, {1, "txn"}}}
+	if tier == "thorough" {
+		isnaps = append(isnaps, c13Snap{Content: "a2", KeyExists: "replace"}, c13Snap{Content: "a2b1", KeyExists: "replace", Restore: true})
+		iswrites = append(iswrites, []c13Write{{0, "idle25h"}, {0, "txn"}}, []c13Write{{0, "set"}, {0, "idle25h"}, {1, "txn1"}}, []c13Write{{0, "idle25h"}, {0, "set"}, {1, "set"}})
+	}
+	if !fam("idle") {
+		isnaps = nil
+	}
+	for _, ws := range iswrites {
+		for si := range isnaps {
+			for _, m := range modes {
+				for _, wrap := range []bool{false, true} {
+					idx++
+					if idx%nshards != shard || budget.Expired() {
+						continue
+					}
+					sn := isnaps[si]
+					scn := c13Scenario{Writes: ws, Cfg: m, WrapSingle: wrap, Snap: &sn}
+					mc.RunScenario(rep, scn, bound, budget, func(ch *mc.Chooser) mc.Result { return c13Exec(t, scn, ch) })
+				}
+			}
+		}
+	}
+	// ---- snapshot family, size boundaries: one collection replayed in expanded form is ONE unit
+	// of one command per element (thousands of commands behind one marker); a value split by the
+	// parser (bin size lowered from 16 MiB to 64 bytes) is several units of one key; a small
+	// MaxProtoBulkLen puts RESTORE units and expanded units into one snapshot; a burst of more
+	// plain writes than the frontier flush count (512) in one link step.
+	type sizeCase struct {
+		sn c13Snap
+		ws []c13Write
+	}
+	var sizes []sizeCase
+	afterB := [][]c13Write{nil, {{1, "txn"}}}
+	if tier == "thorough" {
+		afterB = append(afterB, []c13Write{{1, "set"}}, []c13Write{{0, "set"}, {1, "txn"}})
+	}
+	bigs := []c13Snap{{Content: "big", KeyExists: "replace", Big: "hash", BigN: 1100}}
+	if tier == "thorough" {
+		bigs = nil
+		for _, kind := range []string{"hash", "list", "set", "zset"} {
+			for _, n := range []int{1023, 1024, 1025, 1100} {
+				for _, ke := range []string{"replace", "ignore"} {
+					bigs = append(bigs, c13Snap{Content: "big", KeyExists: ke, Big: kind, BigN: n})
+				}
+			}
+		}
+		// the same value through RESTORE (one command, whatever the size)
+		bigs = append(bigs, c13Snap{Content: "big", KeyExists: "replace", Restore: true, Big: "hash", BigN: 1100})
+	}
+	splits := []c13Snap{{Content: "split", KeyExists: "replace", Chunk: 64}}
+	if tier == "thorough" {
+		splits = append(splits, c13Snap{Content: "split", KeyExists: "ignore", Chunk: 64}, c13Snap{Content: "split", KeyExists: "replace", Chunk: 32},
+			c13Snap{Content: "a2", KeyExists: "replace", BulkLen: 16}, c13Snap{Content: "a2", KeyExists: "ignore", BulkLen: 16}, c13Snap{Content: "a2b1", KeyExists: "replace", BulkLen: 16})
+	}
+	for _, sn := range append(bigs, splits...) {
+		for _, ws := range afterB {
+			sizes = append(sizes, sizeCase{sn, ws})
+		}
+	}
+	if !fam("size") {
+		sizes = nil
+	}
+	for _, sc := range sizes {
+		for _, m := range modes {
+			for _, wrap := range []bool{false, true} {
+				idx++
+				if idx%nshards != shard || budget.Expired() {
+					continue
+				}
+				sn := sc.sn
+				scn := c13Scenario{Writes: sc.ws, Cfg: m, WrapSingle: wrap, Snap: &sn}
+				mc.RunScenario(rep, scn, bound, budget, func(ch *mc.Chooser) mc.Result { return c13Exec(t, scn, ch) })
+			}
+		}
+	}
+	bursts := [][]c13Write{{{0, "burst"}}}
+	if tier == "thorough" {
+		bursts = append(bursts, []c13Write{{0, "burst"}, {1, "txn"}}, []c13Write{{1, "set"}, {0, "burst"}})
+	}
+	if !fam("size") {
+		bursts = nil
+	}
+	for _, ws := range bursts {
+		for _, m := range modes {
+			for _, wrap := range []bool{false, true} {
+				idx++
+				if idx%nshards != shard || budget.Expired() {
+					continue
+				}
+				scn := c13Scenario{Writes: ws, Cfg: m, WrapSingle: wrap}
+				mc.RunScenario(rep, scn, bound, budget, func(ch *mc.Chooser) mc.Result { return c13Exec(t, scn, ch) })
+			}
+		}
+	}
 	// ---- both links configured with a key prefix white list (client keys pass, bookkeeping keys do not)
 	wwrites := [][]c13Write{{{0, "set"}}, {{0, "txn"}}, {{0, "txn"}, {1, "set"}}, {{0, "hset"}, {1, "txn1"}}, {{0, "txnmarkerfirst"}}}
+	if !fam("wl") {
+		wwrites = nil
+	}
 	for _, ws := range wwrites {
 		for _, m := range modes {
 			for _, wrap := range []bool{false, true} {
@@ -843,6 +1108,9 @@ func runC13(t *testing.T, rep *mc.Reporter) {
 	if tier == "thorough" {
 		pbound = 2
 		pwrites = append(pwrites, []c13Write{{0, "txn"}, {1, "txn"}, {0, "set"}}, []c13Write{{0, "setex"}, {1, "markerval"}})
+	}
+	if !fam("preempt") {
+		pwrites = nil
 	}
 	for _, ws := range pwrites {
 		for _, m := range modes {
